@@ -293,15 +293,28 @@ def _dense_in(x, cms, dtype):
     return out
 
 
+def _input_dtype_failures(x, dtype, spec, feats):
+    """The inputs are built by the constructor (plus recorded pre_ops such as fuse): a block
+    of another dtype at this point is a finding about those operations, not a harness fault
+    (the constructor itself stores the blocks it is given)."""
+    bad = [(s, str(np.asarray(b).dtype)) for s, b in x.blocks.items() if str(np.asarray(b).dtype) != dtype]
+    if not bad:
+        return []
+    if not spec.get("pre_ops"):
+        raise AssertionError("harness: constructor input block dtype")
+    ops = [o[0] for o in spec["pre_ops"]]
+    return [("C20.block_dtype", f"building the input through {ops}: block {bad[0][0]!r} has dtype {bad[0][1]} != {dtype}", dict(feats, op="input:" + "+".join(ops)))]
+
+
 def _check_struct(d):
     op = d["op"]
     spec = d["a"]
     dtype = spec["dtype"]
     feats = {"op": op, "dtype": dtype, "fermionic": bool(spec.get("fermionic")), "sym": spec["sym"], "zero_block": False}
     x = build_array(spec)
-    for s, b in x.blocks.items():
-        if str(np.asarray(b).dtype) != dtype:
-            raise AssertionError("harness: input block dtype")
+    pre = _input_dtype_failures(x, dtype, spec, feats)
+    if pre:
+        return ("struct", op, spec_fp(spec), "input"), pre, x
     before = _multiset(val_blocks(x))
     args = ()
     if op == "transpose":
@@ -452,7 +465,9 @@ def _check_arith(d):
     if op == "norm":
         want = float(np.linalg.norm(da.astype(np.complex128)))
         for r in res:
-            if abs(float(r) - want) > TOL[dtype] * (1 + want):
+            if np.iscomplexobj(r):
+                fails.append(("C20.values_kept", f"norm {r!r} is complex", feats))
+            elif abs(float(r) - want) > TOL[dtype] * (1 + want):
                 fails.append(("C20.values_kept", f"norm {r!r} != {want!r}", feats))
     if want_dense is not None:
         kind = want_dense[0]
@@ -488,9 +503,9 @@ def _check_linalg(d):
     tol = TOL[dtype]
     feats = {"op": op, "dtype": dtype, "fermionic": bool(m["spec"].get("fermionic")), "sym": m["spec"]["sym"], "zero_block": False, "fused": any(o[0] == "fuse" for o in m["spec"].get("pre_ops", ()))}
     x = build_matrix(m)
-    for s, b in x.blocks.items():
-        if str(np.asarray(b).dtype) != dtype:
-            raise AssertionError(f"harness: input block dtype {np.asarray(b).dtype} != {dtype}")
+    pre = _input_dtype_failures(x, dtype, m["spec"], feats)
+    if pre:
+        return ("linalg", op, mat_fp(m), "input"), pre, x
     fused = has_subinfo(x)
     fp = ("linalg", op, mat_fp(m), spec_fp(d["b"]) if "b" in d else None, d.get("max_bond"), d.get("cutoff"), d.get("cutoff_mode"))
     fails = []
@@ -569,12 +584,19 @@ def check_case(d):
     with warnings.catch_warnings():
         warnings.simplefilter("error", np.exceptions.ComplexWarning)
         c = d["contract"]
-        if c == "C20.structural":
-            fp, fails, x = _check_struct(d)
-        elif c == "C20.arithmetic":
-            fp, fails, x = _check_arith(d)
-        else:
-            fp, fails, x = _check_linalg(d)
+        try:
+            if c == "C20.structural":
+                fp, fails, x = _check_struct(d)
+            elif c == "C20.arithmetic":
+                fp, fails, x = _check_arith(d)
+            else:
+                fp, fails, x = _check_linalg(d)
+        except np.exceptions.ComplexWarning as e:
+            # raised by library code while the inputs were being built through recorded pre_ops
+            # (the harness itself never casts complex to real): an imaginary part was discarded
+            spec = d.get("a") or d["m"]["spec"]
+            feats = {"op": "input:" + "+".join(o[0] for o in spec.get("pre_ops", ())), "dtype": spec["dtype"], "fermionic": bool(spec.get("fermionic")), "sym": spec["sym"], "zero_block": False}
+            return {"fingerprint": ("input", c, d["op"], spec_fp(spec)), "nontrivial": True, "failures": [("C20.values_kept", f"ComplexWarning while building the input: {e}", feats)]}
     return {
         "fingerprint": fp,
         "nontrivial": len(x.blocks) > 0,
